@@ -34,7 +34,7 @@ def one(name):
     finally:
         sh(f"git -C /repo worktree remove --force {wt}")
         shutil.rmtree(base, ignore_errors=True)
-with ThreadPoolExecutor(5) as ex:
+with ThreadPoolExecutor(7) as ex:
     for name, msg, lines in ex.map(one, names):
         print(name, msg, flush=True)
         for l in lines:
